@@ -386,6 +386,7 @@ func (c *xdsClient) reconnect() (ADSStream, error) {
 	c.mu.Unlock()
 
 	// notify others to use the new stream
+	verifProduced(c.reqCh, 1)
 	c.streamCh <- as
 	return as, nil
 }
@@ -407,6 +408,7 @@ func (c *xdsClient) reqWhenReconnect(as ADSStream) error {
 
 func (c *xdsClient) sendRequest(req *discoveryv3.DiscoveryRequest) {
 	// put the req to the channel
+	verifProduced(c.reqCh, 0)
 	c.reqCh <- req
 }
 
@@ -636,6 +638,7 @@ func clearRequestCh(ch chan *discoveryv3.DiscoveryRequest, length int) {
 	for i := 0; i < length; i++ {
 		select {
 		case _, ok := <-ch:
+			verifProduced(ch, 2)
 			if !ok {
 				return
 			}
